@@ -138,6 +138,9 @@ func (rt *router) desc(fr *routeFrame, v ssa.Value, d int) string {
 		}
 		return x.Op.String() + rt.desc(fr, x.X, d+1)
 	case *ssa.Alloc:
+		if cv, ok := fr.cells[x]; ok {
+			return cv // an addressable local: named by the value last stored in it
+		}
 		return "local:" + typeShort(x.Type())
 	case *ssa.Phi:
 		if s, ok := fr.phi[x]; ok {
@@ -884,4 +887,166 @@ func keywordFieldOf(p *core.Prog, ctor, specField string) string {
 		})
 	}
 	return found
+}
+
+// runConfig renders the configuration of a run.
+func runConfig(run *routeRun) string {
+	var ks []string
+	for a, v := range run.atoms {
+		if v {
+			ks = append(ks, a)
+		} else {
+			ks = append(ks, "!"+a)
+		}
+	}
+	sort.Strings(ks)
+	return strings.Join(ks, " ∧ ")
+}
+
+func runHasEvent(run *routeRun, prefix string) bool {
+	for _, e := range run.events {
+		if strings.HasPrefix(e, prefix) {
+			return true
+		}
+	}
+	return false
+}
+
+// atomsMatching returns the atoms of the run whose name starts with prefix.
+func atomsMatching(run *routeRun, prefix string) map[string]bool {
+	out := map[string]bool{}
+	for a, v := range run.atoms {
+		if strings.HasPrefix(a, prefix) {
+			out[a] = v
+		}
+	}
+	return out
+}
+
+// KeywordRouting — `required` and `dependencies` decided over configurations with the same engine.
+func KeywordRouting(p *core.Prog, r *core.Report) {
+	const rule = "ROUTING"
+	report := func(key string, pos string, n int, viol []string, okMsg, badMsg string) {
+		if len(viol) == 0 {
+			r.OK(rule, key, pos, fmt.Sprintf("%s (each of the %d configurations enumerated)", okMsg, n))
+		} else {
+			r.Bad(rule, key, pos, fmt.Sprintf("%s in %d of %d configurations — e.g. when %s", badMsg, len(viol), n, viol[0]))
+		}
+	}
+	// ---- required ----------------------------------------------------------------------
+	if f := p.Func("(*objectValidator).validatePropertiesSchema"); f == nil {
+		r.Unk(rule, "required:entry", "-", "(*objectValidator).validatePropertiesSchema not found")
+	} else {
+		fReq := keywordFieldOf(p, "newObjectValidator", "Required")
+		fProps := keywordFieldOf(p, "newObjectValidator", "Properties")
+		rt := &router{p: p, recvType: core.NamedOf(f.Signature.Recv().Type()), primitive: map[*ssa.Function]string{}, relevant: func(*ssa.Function) bool { return false }}
+		var missing, spurious, unvalidated, aborted []string
+		n := 0
+		total := rt.enumerate(f, []string{"recv", "arg1", "res"}, func(run *routeRun) {
+			if run.abort != "" {
+				if run.abort != "panic" {
+					aborted = append(aborted, run.abort)
+				}
+				return
+			}
+			n++
+			// the generic required name k: present in the instance? created from a default?
+			inData := atomsMatching(run, "has(arg1,recv."+fReq+"[")
+			fromDefault := atomsMatching(run, "has(new:")
+			errd := runHasEvent(run, "ERROR[Required]")
+			if len(inData) == 1 {
+				absent := false
+				for _, v := range inData {
+					absent = !v
+				}
+				def := false
+				for a, v := range fromDefault {
+					if strings.Contains(a, "recv."+fReq+"[") && v {
+						def = true
+					}
+				}
+				if absent && !def && !errd {
+					missing = append(missing, runConfig(run))
+				}
+				if errd && (!absent || def) {
+					spurious = append(spurious, runConfig(run))
+				}
+			} else if errd {
+				spurious = append(spurious, runConfig(run))
+			} else if empty, known := run.atoms["0==ret0:len(recv."+fReq+")"]; !(known && empty) {
+				// the list of required names is not empty in this configuration, yet no name was examined
+				missing = append(missing, runConfig(run))
+			}
+			// a declared property that is present is validated (with the value stored under its own name)
+			if v, ok := run.atoms["has(arg1,K(recv."+fProps+"))"]; ok && v && !runHasEvent(run, "VALIDATE[") {
+				unvalidated = append(unvalidated, runConfig(run))
+			}
+		})
+		pos := p.Pos(f.Pos())
+		if total > 20000 || len(aborted) > 0 {
+			r.Unk(rule, "required:enumeration", pos, "enumeration incomplete: "+strings.Join(uniq(aborted), "; "))
+		}
+		if fReq == "" || fProps == "" {
+			r.Unk(rule, "required:keyword-fields", pos, "cannot resolve the fields holding required / properties")
+		}
+		r.Count("required_routing_configurations", n)
+		r.Floor("required_routing_configurations", 8)
+		report("required:missing-is-an-error", pos, n, missing, "a required name that is neither a member of the instance nor created from a default raises 'required'", "a missing required member is not reported")
+		report("required:only-then", pos, n, spurious, "'required' is raised only for a name that is absent and not created from a default", "'required' is raised for a member that is present or defaulted")
+		report("properties:present-is-validated", pos, n, unvalidated, "a declared property that is present is validated against its schema", "a declared, present property is not validated")
+	}
+	// ---- dependencies ------------------------------------------------------------------
+	if f := p.Func("(*schemaPropsValidator).validateDependencies"); f == nil {
+		r.Unk(rule, "dependencies:entry", "-", "(*schemaPropsValidator).validateDependencies not found")
+	} else {
+		fDep := keywordFieldOf(p, "newSchemaPropsValidator", "Dependencies")
+		rt := &router{p: p, recvType: core.NamedOf(f.Signature.Recv().Type()), primitive: map[*ssa.Function]string{}, relevant: func(*ssa.Function) bool { return false }}
+		var noSchema, noProp, spurious, aborted []string
+		n := 0
+		K := "K(arg1)"
+		total := rt.enumerate(f, []string{"recv", "arg1", "res"}, func(run *routeRun) {
+			if run.abort != "" {
+				if run.abort != "panic" {
+					aborted = append(aborted, run.abort)
+				}
+				return
+			}
+			n++
+			has, hasKnown := run.atoms["has(recv."+fDep+","+K+")"]
+			schemaNil, snKnown := run.atoms["recv."+fDep+"["+K+"].Schema==nil"]
+			val := runHasEvent(run, "VALIDATE[recv."+fDep+"["+K+"].Schema](arg1)")
+			msg := runHasEvent(run, "MSG[")
+			depMissing := false
+			for a, v := range atomsMatching(run, "has(arg1,recv."+fDep+"["+K+"].Property[") {
+				_ = a
+				if !v {
+					depMissing = true
+				}
+			}
+			if hasKnown && has && snKnown && !schemaNil && !val {
+				noSchema = append(noSchema, runConfig(run))
+			}
+			if hasKnown && has && snKnown && schemaNil && depMissing && !msg {
+				noProp = append(noProp, runConfig(run))
+			}
+			if (val || msg) && !(hasKnown && has) {
+				spurious = append(spurious, runConfig(run))
+			}
+			if msg && !depMissing {
+				spurious = append(spurious, runConfig(run))
+			}
+		})
+		pos := p.Pos(f.Pos())
+		if total > 20000 || len(aborted) > 0 {
+			r.Unk(rule, "dependencies:enumeration", pos, "enumeration incomplete: "+strings.Join(uniq(aborted), "; "))
+		}
+		if fDep == "" {
+			r.Unk(rule, "dependencies:keyword-field", pos, "cannot resolve the field holding dependencies")
+		}
+		r.Count("dependencies_routing_configurations", n)
+		r.Floor("dependencies_routing_configurations", 4)
+		report("dependencies:schema", pos, n, noSchema, "a member with a schema dependency makes the whole instance validate against that schema", "a schema dependency of a present member is not applied")
+		report("dependencies:property", pos, n, noProp, "a member with property dependencies raises an error for each dependency that is absent", "an absent property dependency of a present member is not reported")
+		report("dependencies:only-then", pos, n, spurious, "dependencies are applied only for members that are present and declare them, and an error only for an absent dependency", "a dependency is applied or reported although the member is absent / declares none / the dependency is present")
+	}
 }
